@@ -62,6 +62,8 @@ CLASS_DOC = {
     "exc-edge-stack-residue": "DESIGN 5 #8: an instruction inside a protected range can throw while this frame has values pushed (call arguments, a pending "
                               "return value); handle_exception_at leaves them on the value stack",
     "exc-edge-binding-residue": "same mechanism for frame.binding_stack: GetLocator ... <throw> ... SetNameByLocator inside a protected range",
+    "binding-locator-beyond-environment-chain": "a binding operand's locator names environment Stack(n) but fewer than n+1 environments exist on some path reaching the "
+                                                "instruction (env_fp of the closure + relative depth): Context::environment_expect would panic / a wrong environment is used",
     "iterator-stack-depth-merge": "two normal control-flow paths meet with different lengths of frame.iterators: a break / continue / return left an "
                                   "iterator loop (for-of, for-in, for await) without closing its record, or closed the wrong one",
     "exc-edge-iterator-residue": "a handler is entered with a frame.iterators length other than the one its close code assumes (handle_exception_at does "
@@ -476,6 +478,7 @@ def main():
     run.cov["blocks_verified"] = n_blocks
     run.cov["blocks_accepted"] = n_ok
     run.cov["blocks_rejected"] = n_rej
+    run.cov["blocks_with_known_env_fp"] = sum(1 for c in result.cases.values() for _, _, l in c["blocks"] if re.search(r"env_fp=\d", l))
     run.cov["instructions"] = nins_total
     run.cov["status_distribution"] = dict(sorted(status_count.items()))
     run.cov["rejection_classes_blocks"] = dict(sorted(class_blocks.items()))
@@ -514,7 +517,14 @@ def main():
             for bid, ok_, _ in c["blocks"]:
                 if ok_:
                     acc.add(bid)
-        blocks = [b for b in c03_mut.parse_blocks(sample_static or "") if b[0].split()[1] in acc and 12 <= len(b) <= 400]
+        fps = {}
+        for cid, c in result.cases.items():
+            for bid, ok_, line in c["blocks"]:
+                m = re.search(r"env_fp=(\d+)", line)
+                if m:
+                    fps[bid] = m.group(1)
+        blocks = [b for b in c03_mut.parse_blocks(sample_static or "") if b[0].split()[1] in acc and b[0].split()[1] in fps and 12 <= len(b) <= 400]
+        blocks = [[b[0] + " env_fp=" + fps[b[0].split()[1]]] + b[1:] for b in blocks]
         run.rng.shuffle(blocks)
         cases, meta = [], {}
         for b in blocks[:(25 if quick else 200)]:
